@@ -22,7 +22,7 @@ EXPLANATION = (
     "or down, enclosing-if or early-return form; an off-by-k guard, an equality test on the counter, a constant passed down "
     "or a comparison reached with None is reported), every return hands back the node's own dict; X4 the 'children' key is stored only when the exported list is non-empty; X5 the "
     "importer builds nodecls(parent=parent, **attrs) from the copy minus exactly 'children', iterates the children in order "
-    "and recurses with parent=<the node just built>; import_ passes data unchanged; X6 Node/AnyNode constructors put keyword "
+    "and recurses with parent=<the node just built>; import_ passes data unchanged; X7 a container handed down the import recursion whose membership test ends in a raise has every add undone on every normal path to the exit (it holds the dicts on the current path only, so a dict object that merely occurs twice is not refused); X6 Node/AnyNode constructors put keyword "
     "attributes straight into the instance dict (any key is storable and exported again). Not decided: round-trip equality."
 )
 ASSUMPTIONS = ["node.__dict__ holds the instance attributes; user nodecls/dictcls/attriter/childiter are opaque"]
@@ -363,7 +363,10 @@ def run(ctx):
                 if any(x is c for x in ast.walk(lp)):
                     b = call_binding(c, imp)
                     parentp = imp.posparams[2] if len(imp.posparams) > 2 else "parent"
-                    if norm(b.get(datap)) == lp.target.id and norm(b.get(parentp)) == node_name and len(b) == 2:
+                    extra = {k_: v_ for k_, v_ in b.items() if k_ not in (datap, parentp)}
+                    # further parameters (bookkeeping such as the set of dicts on the current path) are handed on as they are
+                    if norm(b.get(datap)) == lp.target.id and norm(b.get(parentp)) == node_name \
+                            and all(isinstance(v_, ast.Name) and v_.id == k_ for k_, v_ in extra.items()):
                         okr = True
     if okr:
         ctx.inst("X5", imp, loops[0], "children imported in list order with parent=<node just built>")
@@ -379,10 +382,60 @@ def run(ctx):
     ctx.touch(top)
     tc = find_calls(top, lambda c: norm(c.func) == "self.__import")
     rets = [r for r in walk_own(top.node) if isinstance(r, ast.Return)]
-    if len(tc) == 1 and len(rets) == 1 and rets[0].value is tc[0] and [norm(a) for a in tc[0].args] == [top.posparams[1]] and not tc[0].keywords:
+    def _top_ok(c):
+        b = call_binding(c, imp)
+        parentp_ = imp.posparams[2] if len(imp.posparams) > 2 else "parent"
+        if norm(b.get(datap)) != top.posparams[1]:
+            return False
+        if parentp_ in b and not (isinstance(b[parentp_], ast.Constant) and b[parentp_].value is None):
+            return False
+        for k_, v_ in b.items():
+            if k_ in (datap, parentp_):
+                continue
+            fresh = (isinstance(v_, ast.Call) and isinstance(v_.func, ast.Name) and v_.func.id in ("set", "list", "dict") and not v_.args) \
+                or (isinstance(v_, (ast.List, ast.Dict, ast.Tuple)) and not getattr(v_, "elts", getattr(v_, "keys", []))) \
+                or (isinstance(v_, ast.Constant) and v_.value in (None, 0))
+            if not fresh:
+                return False
+        return True
+    if len(tc) == 1 and len(rets) == 1 and rets[0].value is tc[0] and _top_ok(tc[0]):
         ctx.inst("X5", top, tc[0], "import_ delegates with the data unchanged and no parent")
     else:
         ctx.viol("X5", top, top.node, "import_ does not return self.__import(data)", construct="import_: delegation")
+    # ---------------------------------------------------------------- X7 bookkeeping that can refuse an input
+    # a container handed down the recursion whose membership test ends in a raise: it must hold the dicts on the CURRENT
+    # path only (every add is undone on every normal path to the exit) - otherwise a dictionary object that merely occurs
+    # twice (a shared leaf) is refused although it is a valid export-shaped input
+    icfg = typer.cfg_of(imp)
+    params = [q for q in imp.posparams if q != imp.selfname]
+    for prm in params:
+        adds = [cn for cn in icfg.nodes if cn.kind == "stmt" and isinstance(cn.ast, ast.Expr) and isinstance(cn.ast.value, ast.Call)
+                and isinstance(cn.ast.value.func, ast.Attribute) and cn.ast.value.func.attr in ("add", "append")
+                and norm(cn.ast.value.func.value) == prm and len(cn.ast.value.args) == 1]
+        if not adds:
+            continue
+        refusing = []
+        for rn in icfg.stmt_nodes(("raisestmt",)):
+            for c_, o_, _g in icfg.guards_of(rn):
+                if isinstance(c_, ast.Compare) and len(c_.ops) == 1 and isinstance(c_.ops[0], (ast.In, ast.NotIn)) and norm(c_.comparators[0]) == prm \
+                        and (o_ is True) == isinstance(c_.ops[0], ast.In):
+                    refusing.append(rn)
+        if not refusing:
+            continue
+        for an in adds:
+            key = norm(an.ast.value.args[0])
+            removers = [cn for cn in icfg.nodes if cn.kind == "stmt" and isinstance(cn.ast, ast.Expr) and isinstance(cn.ast.value, ast.Call)
+                        and isinstance(cn.ast.value.func, ast.Attribute) and cn.ast.value.func.attr in ("remove", "discard", "pop")
+                        and norm(cn.ast.value.func.value) == prm
+                        and (not cn.ast.value.args or norm(cn.ast.value.args[0]) == key or cn.ast.value.func.attr == "pop")]
+            reach = icfg.reach_from(an, avoid=removers, labels_excluded=("exc",))
+            if icfg.exit.id in reach:
+                ctx.viol("X7", imp, an.ast, "`%s` is added to `%s`, which is tested before a raise, and is not taken out again on every normal "
+                         "path to the end of the call: the container holds every dict seen so far instead of the dicts on the current path, "
+                         "so a dictionary object that occurs twice in a valid input is refused" % (key, prm),
+                         construct="__import: %s.add(%s) not undone" % (prm, key))
+            else:
+                ctx.inst("X7", imp, an.ast, "`%s` holds the dicts on the current path only (add undone on every normal path)" % prm)
     # ---------------------------------------------------------------- X6
     for cname in ("Node", "AnyNode"):
         init = p.func(cname, "__init__")
